@@ -93,8 +93,8 @@ def h(t, part):
             x = t.int(-3, 3)
             argform = t.choice(3)
             args = [[], [x], [b'\x01\x02', {'k': [x, b'z']}]][argform]
-            retform = t.choice(8)
-            ret = [None, x, 0, '', [x, 's'], {'a': x}, (x, 's'), b'bin'][retform]
+            retform = t.choice(9)
+            ret = [None, x, 0, '', [x, 's'], {'a': x}, (x, 's'), b'bin', {'files': [b'f', {'t': b'g'}]}][retform]
         else:
             # second event: fixed shape, any sender (order and per-client isolation)
             idk, eid, x = 2, t.int(1, 2), 5
@@ -167,7 +167,7 @@ def parts(tier):
     return out
 
 
-CHECKS = [dict(name='events', fn=h, parts=parts, budget={'quick': 80, 'thorough': 1200}, per_path_s=20)]
+CHECKS = [dict(name='events', fn=h, parts=parts, budget={'quick': 180, 'thorough': 1200}, per_path_s=20)]
 
 META = dict(
     explanation='Real _handle_eio_message -> _handle_event -> _handle_event_internal -> _trigger_event of Server and '
@@ -175,7 +175,7 @@ META = dict(
                 'id, the arguments and the handler\'s return value drawn from the tape.',
     bounds={'quick': 'one event (two for the function-handler configuration) from {e0:/, e0:/a, e1:/, e1:/a (not '
                      'connected)}; id in {None, 0, symbolic 1..2, 10^20}; arguments in {(), (x), (bytes, '
-                     '{k:[x,bytes]})} with symbolic x; return in {None, x, 0, "", list, dict, tuple, bytes}; responsible '
+                     '{k:[x,bytes]})} with symbolic x; return in {None, x, 0, "", list, dict, tuple, bytes, dict->list->bytes}; responsible '
                      'party in %r; async_handlers in {False, True}' % (WHO,),
             'thorough': 'two consecutive events in every configuration (second event of fixed shape from any sender; full '
                         'product for function handlers)'},
